@@ -94,6 +94,9 @@ def gen_seq(rng, setlike, small=False, bigmult=False):
         return ('q', sorted(rng.sample(range(30), min(n, 30))))
     return ('q', [rng.randrange(6) for _ in range(n)])
 def gen_fmap(rng):
+    if rng.random() < 0.05:              # a large flat map
+        ks = sorted(rng.sample(range(64), rng.choice([17, 20, 33, 40])))
+        return ('m', [(k, rng.randrange(4)) for k in ks])
     ks = sorted(rng.sample(range(12), rng.choice([0, 1, 2, 3, 5, 8])))
     return ('m', [(k, rng.randrange(4)) for k in ks])
 
@@ -114,6 +117,9 @@ def gen_field(rng, f):
     if s == 'U': return gen_seq(rng, f.c >= 2, bigmult=True)
     if s == 'M': return gen_fmap(rng)
     if s == 'N':
+        if rng.random() < 0.15:          # a LARGE map (thresholds on sizes / counts of changed, inserted, removed entries show only here)
+            ks = sorted(rng.sample(range(64), rng.choice([17, 20, 33, 40])))
+            return ('r', [(k, gen_val(rng, f.sub)) for k in ks])
         ks = sorted(rng.sample(range(9), rng.choice([0, 1, 2, 3, 5])))
         return ('r', [(k, gen_val(rng, f.sub)) for k in ks])
     raise ValueError(s)
@@ -150,6 +156,26 @@ def mutate_field(rng, f, v, mode):
                 if x is not None: l.insert(rng.randint(0, len(l)), x)
             elif l and not (s == 'U' and f.c >= 2): l[rng.randrange(len(l))] = rng.randrange(6)
         return ('q', sorted(l) if (s == 'U' and f.c >= 2) else l)
+    if s in ('M', 'N') and len(v[1]) >= 17 and rng.random() < 0.85:
+        m = dict(v[1]); keys = sorted(m)
+        c = rng.choice([1, 2, 16, 17, len(keys) // 2, len(keys)]); c = max(1, min(c, len(keys)))
+        kinds = rng.choice([('chg',), ('chg', 'ins'), ('chg', 'ins'), ('chg', 'ins', 'rem'), ('chg', 'ins', 'rem'), ('ins', 'rem'), ('rem',), ('chg', 'rem')])
+        rng.shuffle(keys)
+        if 'rem' in kinds:
+            for k in keys[:min(c, len(keys) - 1)]: del m[k]
+            keys = keys[min(c, len(keys) - 1):]
+        if 'chg' in kinds:
+            for k in keys[:c]:
+                if s == 'M': m[k] = m[k] + 10
+                else:
+                    old = m[k]
+                    for _ in range(4):
+                        m[k] = mutate_val(rng, f.sub, old, 'any') if rng.random() < 0.7 else gen_val(rng, f.sub)
+                        if m[k] != old: break
+        if 'ins' in kinds:
+            fresh = [k for k in rng.sample(range(64, 200), 60)][:c]
+            for k in fresh: m[k] = rng.randrange(4) if s == 'M' else gen_val(rng, f.sub)
+        return ('m' if s == 'M' else 'r', sorted(m.items()))
     if s == 'M' and rng.random() < 0.7:
         m = dict(v[1])
         for _ in range(rng.randint(1, 3)):
